@@ -1505,7 +1505,7 @@ pub fn array_at(
 }
 
 pub fn array_last_index_of(
-    _interp: &mut Interpreter,
+    interp: &mut Interpreter,
     this: JsValue,
     args: &[JsValue],
 ) -> Result<Guarded, JsError> {
@@ -1517,10 +1517,8 @@ pub fn array_last_index_of(
 
     let search_elem = args.first().cloned().unwrap_or(JsValue::Undefined);
 
-    let arr_ref = arr.borrow();
-    let length = arr_ref
-        .array_length()
-        .ok_or_else(|| JsError::type_error("Not an array"))?;
+    // Array-like length with ToLength coercion, as in indexOf
+    let length = get_array_like_length(interp, &arr)?;
 
     let from_index = args
         .get(1)
@@ -1539,9 +1537,7 @@ pub fn array_last_index_of(
     }
 
     for i in (0..=from_index as u32).rev() {
-        let elem = arr_ref
-            .get_property(&PropertyKey::Index(i))
-            .unwrap_or(JsValue::Undefined);
+        let elem = get_array_like_element(&arr, i);
         if elem.strict_equals(&search_elem) {
             return Ok(Guarded::unguarded(JsValue::Number(i as f64)));
         }
@@ -1568,10 +1564,8 @@ pub fn array_reduce_right(
         ));
     }
 
-    let length = arr
-        .borrow()
-        .array_length()
-        .ok_or_else(|| JsError::type_error("Not an array"))?;
+    // Array-like length with ToLength coercion, as in reduce
+    let length = get_array_like_length(interp, &arr)?;
 
     if length == 0 && args.get(1).is_none() {
         return Err(JsError::type_error(
@@ -1582,19 +1576,13 @@ pub fn array_reduce_right(
     let (mut accumulator, start_index) = if let Some(initial) = args.get(1) {
         (initial.clone(), length as i64 - 1)
     } else {
-        let elem = arr
-            .borrow()
-            .get_property(&PropertyKey::Index(length - 1))
-            .unwrap_or(JsValue::Undefined);
+        let elem = get_array_like_element(&arr, length - 1);
         (elem, length as i64 - 2)
     };
 
     let mut accumulator_guard = None;
     for i in (0..=start_index).rev() {
-        let elem = arr
-            .borrow()
-            .get_property(&PropertyKey::Index(i as u32))
-            .unwrap_or(JsValue::Undefined);
+        let elem = get_array_like_element(&arr, i as u32);
         let Guarded {
             value: result,
             guard: result_guard,
@@ -1769,16 +1757,11 @@ pub fn array_find_last(
 
     let this_arg = args.get(1).cloned().unwrap_or(JsValue::Undefined);
 
-    let length = arr
-        .borrow()
-        .array_length()
-        .ok_or_else(|| JsError::type_error("Not an array"))?;
+    // Array-like length with ToLength coercion, as in the forward-searching sibling
+    let length = get_array_like_length(interp, &arr)?;
 
     for i in (0..length).rev() {
-        let elem = arr
-            .borrow()
-            .get_property(&PropertyKey::Index(i))
-            .unwrap_or(JsValue::Undefined);
+        let elem = get_array_like_element(&arr, i);
 
         let Guarded {
             value: result,
@@ -1818,16 +1801,11 @@ pub fn array_find_last_index(
 
     let this_arg = args.get(1).cloned().unwrap_or(JsValue::Undefined);
 
-    let length = arr
-        .borrow()
-        .array_length()
-        .ok_or_else(|| JsError::type_error("Not an array"))?;
+    // Array-like length with ToLength coercion, as in the forward-searching sibling
+    let length = get_array_like_length(interp, &arr)?;
 
     for i in (0..length).rev() {
-        let elem = arr
-            .borrow()
-            .get_property(&PropertyKey::Index(i))
-            .unwrap_or(JsValue::Undefined);
+        let elem = get_array_like_element(&arr, i);
 
         let Guarded {
             value: result,
